@@ -391,6 +391,7 @@ func TestC16(t *testing.T) {
 	c16Invalid(v)
 	c16Booleans(v)
 	c16Durations(v, rng)
+	c16DurationsHMS(m, v, rng)
 	c16Enctypes(v)
 	c16RealmLines(m, v, rng)
 	c16RealmsSection(m, v, rng)
@@ -609,6 +610,49 @@ func c16Durations(v *Verdict, rng *RNG) {
 				}
 				v.Violate("failing-input", fmt.Sprintf("c16:duration-format-%d", f), "a duration in a documented format does not load with the documented value", map[string]string{"text": txt, "want": d.String(), "got": got})
 			}
+		}
+	}
+}
+
+// the h:m[:s] form against the Lean model hmsSeconds (theorems hms_canonical, hms_two_parts, hms_arity,
+// hms_range): 2..4 parts, each from the edges of the 16-bit range and of the sexagesimal digits, or random
+func c16DurationsHMS(m *Model, v *Verdict, rng *RNG) {
+	n := 300
+	if Thorough() {
+		n = 6000
+	}
+	edges := []int{0, 1, 9, 10, 59, 60, 61, 99, 100, 3600, -1, -59, 32766, 32767, 32768, -32767, -32768, -32769, 65535, 65536, 100000}
+	for i := 0; i < n; i++ {
+		np := 2 + rng.Intn(3)
+		if i%10 == 0 {
+			np = 3
+		}
+		var parts []string
+		for j := 0; j < np; j++ {
+			x := edges[rng.Intn(len(edges))]
+			switch rng.Intn(4) {
+			case 0:
+				x = rng.Intn(60)
+			case 1:
+				x = rng.Intn(40000) - 2000
+			}
+			parts = append(parts, itoa(x))
+		}
+		txt := strings.Join(parts, ":")
+		v.Case("hms/"+txt, fmt.Sprintf("h:m:s form with %d parts", np))
+		cfg, err := config.NewFromString("[libdefaults]\n ticket_lifetime = " + txt + "\n")
+		g := "err"
+		if err == nil {
+			d := cfg.LibDefaults.TicketLifetime
+			if d%time.Second != 0 {
+				g = "ok " + d.String()
+			} else {
+				g = "ok " + fmt.Sprint(int64(d/time.Second))
+			}
+		}
+		mo := m.Ask("conf.hms " + strings.Join(parts, " "))
+		if mo != g {
+			v.Violate("correspondence", "c16:duration-hms-model", "parseDuration and its Lean model disagree on an h:m[:s] value", map[string]string{"text": txt, "go": g, "model": mo})
 		}
 	}
 }
